@@ -26,6 +26,11 @@ def cases(tier, seed, PROP):
     if PROP in ('C07', 'C09'):
         for k in range(150 if tier == 'quick' else 3000):
             yield {'stratum': 'graph', 'index': k, 'kind': 'graph'}
+    if PROP == 'C05':
+        # "at creation or later": values re-assigned after a first write, incl. values of another kind (text <-> number <->
+        # reference <-> date-time) -- the second file must carry what is assigned now
+        for k in range(60 if tier == 'quick' else 1500):
+            yield {'stratum': 'reassign-after-write', 'index': k, 'kind': 'rewrite'}
     if PROP == 'C07':
         yield {'stratum': 'kf-regression', 'index': 0, 'kind': 'kf-c07-across-sets'}
     if PROP == 'C09':
@@ -39,6 +44,9 @@ def build_spec(case, PROP, r):
     k = case['kind']
     if k == 'random':
         return metagen.meta_spec(r, avoid=avoid)
+    if k == 'rewrite':
+        from vf.checks import c14
+        return c14.base_spec(r, avoid)
     if k == 'graph':
         return metagen.meta_spec(r, avoid=avoid, n_objects=r.choice([6, 12, 25]), n_origins=r.choice([1, 2, 3, 4]),
                                  origin_pos=r.choice(['first', 'middle', 'last']),
@@ -173,6 +181,17 @@ def run_case(case, PROP):
     def bump(k, n=1):
         obs[k] = obs.get(k, 0) + n
 
+    later_ops = None
+    if case['kind'] == 'rewrite':
+        from vf.checks import c14
+        later_ops = []
+        ops_now = list(sp['ops'])
+        for _ in range(r.choice([1, 2, 3])):
+            ph = c14.make_phase(r, r.choice(['assign-other-kind', 'assign-other-kind', 'assign-value', 'assign-units',
+                                            'change-channel-units']), ops_now, sp, {})
+            later_ops.extend(ph['ops'])
+            ops_now.extend(ph['ops'])
+        bump('reassign-after-write')
     contracts.attach_codec()
     contracts.drain()
     # naive date-times mean local time of the process: vary the zone (POSIX TZ strings, no tzdata needed)
@@ -185,6 +204,25 @@ def run_case(case, PROP):
     bump('tz-' + tz.split(',')[0])
     try:
         run = harness.execute(sp, want_taps=False)
+        if later_ops is not None and run.data is not None:
+            # second write of the same DLISFile after the re-assignments; the oracle then judges the SECOND file against
+            # the specification in its current state (base ops + later assignments, applied in order)
+            from vf import spec as S
+            b = run.built
+            for op in later_ops:
+                i = len(sp['ops'])
+                sp['ops'].append(op)
+                try:
+                    S.run_op(b, i, op, 'inline')
+                    b.outcomes.append(('ok',))
+                except S.HarnessError:
+                    raise
+                except Exception as e:   # noqa
+                    b.outcomes.append(('exc', type(e).__name__, str(e)[:200]))
+            path = harness.fresh_path()
+            wout = S.do_write(sp, b, path, harness.scratch_dir())
+            data = open(path, 'rb').read() if wout[0] == 'ok' else None
+            run = oracle.Run(sp, b, wout, data, None, None, [])
         if run.data is not None:
             oracle.ensure_expected(run)     # expected instants are computed under the same zone
     finally:
